@@ -185,21 +185,26 @@ def lake_build(targets):
 # (colour symmetry, kings never captured, conservation, published perft counts evaluated in the kernel)
 _IMP = ["Rawr.Proofs.RustImpAgree", "Rawr.Proofs.RustImpAgree_MakeMove", "Rawr.Proofs.RustImpAgree_MoveGen"]
 _SRCH = ["Rawr.Proofs.RustSearchAgree", "Rawr.Proofs.RustSearchAgree_Sort", "Rawr.Proofs.RustSearchAgree_QSearch",
-         "Rawr.Proofs.RustSearchAgree_Valid", "Rawr.Proofs.RustSearchAgree_Negamax", "Rawr.Proofs.RustSearchAgree_Root"]
+         "Rawr.Proofs.RustSearchAgree_Valid", "Rawr.Proofs.RustSearchAgree_Negamax", "Rawr.Proofs.RustSearchAgree_Root",
+         "Rawr.Proofs.RustSearchAgree_Rules"]
+_TXT = "Rawr.Proofs.RustTextAgree"
 EXTRA_MODULES = {
     "C01": ["Rawr.Proofs.RustFnsAgree"] + _IMP + ["Rawr.Props.SpecSanity"],
     "C02": _IMP,
     "C04": _IMP,
-    "C06": ["Rawr.Proofs.RustImpAgree"],
-    "C07": ["Rawr.Proofs.RustImpAgree"],
-    "C08": ["Rawr.Proofs.RustFnsAgree"] + _IMP + ["Rawr.Proofs.RustSearchAgree", "Rawr.Props.SpecSanity"],
+    "C05": [_TXT],
+    "C06": ["Rawr.Proofs.RustImpAgree", _TXT, _TXT + "_GetFen", _TXT + "_SetFen"],
+    "C07": ["Rawr.Proofs.RustImpAgree", _TXT, _TXT + "_SetFen"],
+    "C09": [_TXT],
+    "C15": [_TXT, _TXT + "_Go"],
+    "C08": ["Rawr.Proofs.RustFnsAgree"] + _IMP + ["Rawr.Proofs.RustSearchAgree", _TXT + "_Go", "Rawr.Props.SpecSanity"],
     "C10": ["Rawr.Proofs.RustFnsAgree"],
     "C14": ["Rawr.Proofs.RustFnsAgree"] + _SRCH,
     "C03": ["Rawr.Proofs.RustFnsAgree"] + _SRCH,
     "C11": _SRCH,
     "C12": _SRCH,
     "C13": _SRCH,
-    "C16": ["Rawr.Proofs.RustSearchAgree"],
+    "C16": ["Rawr.Proofs.RustSearchAgree", _TXT, _TXT + "_Go"],
     "C17": ["Rawr.Proofs.RustFnsAgree", "Rawr.Proofs.RustImpAgree"],
     "C18": ["Rawr.Proofs.RustSearchAgree"],
     "C19": ["Rawr.Proofs.RustImpAgree", "Rawr.Proofs.RustSearchAgree", "Rawr.Proofs.RustSearchAgree_Sort", "Rawr.Proofs.RustSearchAgree_QSearch"],
@@ -210,10 +215,12 @@ def run_rust2lean():
     rc, out = sh([sys.executable, os.path.join(VERIF, "tools", "rust2lean.py")])
     rc2, out2 = sh([sys.executable, os.path.join(VERIF, "tools", "rust2lean_imp.py")])
     rc3, out3 = sh([sys.executable, os.path.join(VERIF, "tools", "rust2lean_search.py")])
+    rc4, out4 = sh([sys.executable, os.path.join(VERIF, "tools", "rust2lean_text.py")])
     global TRANSLATORS
     TRANSLATORS = {"RustFnsAgree": (rc == 0, out.strip()), "RustImpAgree": (rc2 == 0, out2.strip()),
-                   "RustSearchAgree": (rc3 == 0 and rc2 == 0, (out3.strip() if rc3 else out2.strip()))}
-    return rc == 0 and rc2 == 0 and rc3 == 0, (out.strip() + " | " + out2.strip() + " | " + out3.strip())
+                   "RustSearchAgree": (rc3 == 0 and rc2 == 0, (out3.strip() if rc3 else out2.strip())),
+                   "RustTextAgree": (rc4 == 0 and rc2 == 0, (out4.strip() if rc4 else out2.strip()))}
+    return rc == 0 and rc2 == 0 and rc3 == 0 and rc4 == 0, " | ".join(x.strip() for x in (out, out2, out3, out4))
 
 
 TRANSLATORS = {}
